@@ -663,8 +663,10 @@ func writeEvidence(id, tier string, seed uint64, pc propCfg, a *agg, wall float6
 		"violations": nviol,
 	}
 	b, _ := json.MarshalIndent(ev, "", " ")
-	os.MkdirAll(filepath.Join(verifDir, "evidence"), 0o755)
-	os.WriteFile(filepath.Join(verifDir, "evidence", id+".json"), append(b, '\n'), 0o644)
+	// VERIF_EVIDENCE_DIR: evaluations of seeded changes write their evidence elsewhere
+	evDir := envOr("VERIF_EVIDENCE_DIR", filepath.Join(verifDir, "evidence"))
+	os.MkdirAll(evDir, 0o755)
+	os.WriteFile(filepath.Join(evDir, id+".json"), append(b, '\n'), 0o644)
 }
 
 // ---------- minimisation and replay ----------
